@@ -13,9 +13,10 @@ from .loader import AnalysisError, stmt_text
 
 
 class State(object):
-    __slots__ = ("heap", "pc", "log", "approx")
+    __slots__ = ("heap", "pc", "log", "approx", "ctor_pc")
 
     def __init__(self):
+        self.ctor_pc = []
         self.heap = {}     # oid -> {field: term}
         self.pc = []       # [(term, polarity, site)]
         self.log = []      # effect records (tuples, first item = kind)
@@ -27,6 +28,7 @@ class State(object):
         n.pc = list(self.pc)
         n.log = list(self.log)
         n.approx = list(self.approx)
+        n.ctor_pc = self.ctor_pc
         return n
 
     def fields(self, obj):
